@@ -23,6 +23,10 @@ struct AppSt {
     declined: u64,
     n_declined: usize,
     visit_of_declines: u64,
+    /// The station consumed a token addressed to it (or sent one to itself) and has not passed it
+    /// on since.  After a disturbance (a late reply colliding with the next telegram) two
+    /// stations can hold a token each for a while; each of them "holds the token".
+    has_token: bool,
 }
 
 pub struct AppCallMonitor {
@@ -55,6 +59,7 @@ impl AppCallMonitor {
                     declined: 0,
                     n_declined: 0,
                     visit_of_declines: 0,
+                    has_token: false,
                 })
                 .collect(),
             n_tx_calls: 0,
@@ -76,10 +81,13 @@ impl Monitor for AppCallMonitor {
     fn on_tx(&mut self, w: &World, idx: usize) {
         let bus = w.bus.borrow();
         let tx = &bus.txs[idx];
-        if let Some(Frame::Token { da, .. }) = &tx.frame {
+        if let Some(Frame::Token { da, sa }) = &tx.frame {
             self.holder = Some(*da);
             if let Some(i) = w.station_by_addr(*da) {
                 self.st[i].visit += 1;
+            }
+            if tx.real && w.stations[tx.sender].cfg.addr == *sa {
+                self.st[tx.sender].has_token = *da == *sa;
             }
         }
     }
@@ -91,6 +99,7 @@ impl Monitor for AppCallMonitor {
             s.last = None;
             s.declined = 0;
             s.n_declined = 0;
+            s.has_token = false;
         }
     }
 
@@ -98,11 +107,22 @@ impl Monitor for AppCallMonitor {
         let addr = w.stations[p.st].cfg.addr;
         let holder = self.holder;
         let s = &mut self.st[p.st];
+        for r in p.rx {
+            if let crate::phy::RxVerdict::Consumed { frame: Frame::Token { da, sa }, .. } = &r.verdict {
+                if *da == addr && *sa != addr {
+                    if holder != Some(addr) {
+                        // a token from an earlier moment (e.g. buffered while the station was busy)
+                        s.visit += 1;
+                    }
+                    s.has_token = true;
+                }
+            }
+        }
         for c in p.calls {
             match c {
                 AppCall::Tx { app, sent, .. } => {
                     self.n_tx_calls += 1;
-                    if holder != Some(addr) {
+                    if holder != Some(addr) && !s.has_token {
                         w.violate(
                             self.prop,
                             "apps.token",
@@ -276,6 +296,10 @@ struct HoldSt {
     /// Claiming the token (two self-addressed tokens and the GAP scan): applications are not
     /// asked until the scan is over.
     claim_phase: bool,
+    /// Token telegrams sent since the claim started (two claim tokens, then the pass after the scan).
+    claim_tokens: u8,
+    /// Own FDL status requests that no application asked for (GAP polls) in this token visit.
+    gap_polls_in_visit: u32,
 }
 
 pub struct HoldMonitor {
@@ -293,6 +317,7 @@ pub struct HoldMonitor {
     pub max_rot_ratio: f64,
     pub max_hold_ratio: f64,
     pub n_starve_checked: u64,
+    pub n_gap_polls: u64,
     /// Only the hold-time clause (used by C15: "the token is passed once ... the hold time is over").
     only_hold_time: bool,
 }
@@ -323,6 +348,8 @@ impl HoldMonitor {
                     last_receipt_for_rotation: None,
                     skip_rotation: true,
                     claim_phase: false,
+                    claim_tokens: 0,
+                    gap_polls_in_visit: 0,
                 })
                 .collect(),
             holder: None,
@@ -336,6 +363,7 @@ impl HoldMonitor {
             max_rot_ratio: 0.0,
             max_hold_ratio: 0.0,
             n_starve_checked: 0,
+            n_gap_polls: 0,
             only_hold_time: false,
         }
     }
@@ -387,6 +415,7 @@ impl Monitor for HoldMonitor {
             if let Some(i) = w.station_by_addr(*sa) {
                 if *sa == *da && self.holder != Some(*sa) && tx.sender == w.stations[i].node {
                     self.st[i].claim_phase = true;
+                    self.st[i].claim_tokens = 0;
                 } else if *sa != *da {
                     self.st[i].claim_phase = false;
                 }
@@ -407,6 +436,15 @@ impl Monitor for HoldMonitor {
                     }
                 }
             }
+            if let Some(i) = w.station_by_addr(*sa) {
+                if self.st[i].claim_phase && tx.sender == w.stations[i].node {
+                    // two claim tokens, the scan of the whole GAP, then the first regular pass
+                    self.st[i].claim_tokens += 1;
+                    if self.st[i].claim_tokens >= 3 {
+                        self.st[i].claim_phase = false;
+                    }
+                }
+            }
             self.holder = Some(*da);
             if let Some(i) = w.station_by_addr(*da) {
                 let own = tx.sender == w.stations[i].node;
@@ -417,6 +455,7 @@ impl Monitor for HoldMonitor {
                     s.w_prev = s.w_cur;
                     s.w_cur = Some(wt);
                     s.reqs_in_visit = 0;
+                    s.gap_polls_in_visit = 0;
                     s.visits += 1;
                     self.n_visits += 1;
                     // rotation bound
@@ -447,6 +486,24 @@ impl Monitor for HoldMonitor {
                     s.last_receipt_for_rotation = Some(wt);
                     s.skip_rotation = false;
                 }
+            }
+            return;
+        }
+        // GAP maintenance of the token holder: "one bounded message cycle and GAP poll per station"
+        if tx.real && w.cur_tx_app.is_none() && f.is_fdl_status_request() {
+            let i = tx.sender;
+            let addr = w.stations[i].cfg.addr;
+            let s = &mut self.st[i];
+            s.gap_polls_in_visit += 1;
+            self.n_gap_polls += 1;
+            if s.gap_polls_in_visit >= 2 && !s.claim_phase && !self.only_hold_time && self.holder == Some(addr) {
+                w.violate(
+                    self.prop,
+                    "hold.gap",
+                    "several-gap-polls-in-one-visit",
+                    Some(addr),
+                    format!("#{addr} sends GAP poll no. {} of this token visit ({}); outside the scan that follows a claim a visit has room for one", s.gap_polls_in_visit, f.short()),
+                );
             }
             return;
         }
@@ -513,6 +570,7 @@ impl Monitor for HoldMonitor {
         s.add("hold.requests_checked_against_hold_time", self.n_reqs_checked);
         s.add("hold.rotations_checked", self.n_rotations);
         s.add("hold.starvation_visits_checked", self.n_starve_checked);
+        s.add("hold.gap_polls_counted", self.n_gap_polls);
         s.add("probe.hold_time_already_over_at_first_cycle", self.n_late_visits);
         s.max("hold.max_rotation_over_bound", self.max_rot_ratio);
         s.max("hold.max_request_start_over_hold_time", self.max_hold_ratio);
